@@ -360,6 +360,17 @@ FILESETS = {
               ("README", "TXT", 1, 0xFF, 0, 0, [97 + i % 26 for i in range(2100)]),
               ("SECTOR", "TXT", 1, 0xFF, 0, 0, [48 + i % 10 for i in range(256)]),
               ("SHORT", "TXT", 1, 0xFF, 0, 0, [32 + i % 90 for i in range(1500)])],
+    # every kind at the lengths where the stored stream (data + 10 / + 3 / + 0 header and trailer bytes) ends just below, at and
+    # just above a granule boundary: the granule count, the sector count of the last granule and the bytes of the last sector
+    "boundary": [("ML2293", "BIN", 2, 0, 0x1000, 0x1001, [(5 * i + 1) % 256 for i in range(2293)]),
+                 ("ML2294", "BIN", 2, 0, 0x2000, 0x2002, [(5 * i + 2) % 256 for i in range(2294)]),
+                 ("BAS2300", "BAS", 0, 0, 0, 0, [(7 * i + 3) % 256 for i in range(2300)]),
+                 ("BAS2301", "BAS", 0, 0, 0, 0, [(7 * i + 4) % 256 for i in range(2301)]),
+                 ("BAS2302", "BAS", 0, 0, 0, 0, [(7 * i + 5) % 256 for i in range(2302)]),
+                 ("BAS4606", "BAS", 0, 0, 0, 0, [(7 * i + 6) % 256 for i in range(4606)]),
+                 ("TXT2299", "TXT", 1, 0xFF, 0, 0, [65 + i % 26 for i in range(2299)]),
+                 ("TXT2303", "TXT", 1, 0xFF, 0, 0, [66 + i % 25 for i in range(2303)]),
+                 ("TXT4607", "TXT", 1, 0xFF, 0, 0, [67 + i % 24 for i in range(4607)])],
     "with-empty": [("FIRST", "BIN", 2, 0, 0x1000, 0x1000, [1, 2]), ("EMPTY", "BIN", 2, 0, 0x2000, 0x2000, []),
                    ("LAST", "BIN", 2, 0, 0x3000, 0x3000, [5])],
 }
@@ -422,6 +433,10 @@ class CliFileUtil:
                     for ap in (False, True):
                         out.append({"id": "fu/matrix/%s-to-%s/%s/%s" % (src, dst, pre, "append" if ap else "noappend"), "k": "matrix",
                                     "src": src, "dst": dst, "pre": pre, "append": ap})
+            # sequences of invocations with files at the granule / sector boundary lengths: the image written to a NEW path is
+            # complete, and is afterwards recognised as what it is (refused as a cassette target, extended as a disk target)
+            for fsn in ("boundary", "kinds"):
+                out.append({"id": "fu/sequence/%s/%s" % (src, fsn), "k": "sequence", "src": src, "set": fsn})
         out.append({"id": "fu/missing-host", "k": "missing"})
         return out
 
@@ -608,6 +623,50 @@ class CliFileUtil:
             return
         want = read_image(dst, before) + [(n, ft, la, ea, d) for (n, e, ft, dt, la, ea, d) in files]
         self._same_files(env, got, want, "C10:complete-image", sig, ("C10", "C16"))
+
+    def k_sequence(self, env, cell, native):
+        src, fsn = cell["src"], cell["set"]
+        files = FILESETS[fsn]
+        host = "host." + src
+        sig = lambda w: (lambda: "fu/sequence/%s/%s:%s" % (src, fsn, w)) if native else None
+        fs0 = {host: make_image(src, files)}
+        # 1. conversion to a path that does not exist: the file written is a complete disk image of exactly these files
+        r1 = run_cli(env, "file_util", {"host_filename": host, "to_dsk": "new.dsk"}, dict(fs0))
+        if not self._gate(env, r1, sig):
+            return
+        img = r1.fs.get("new.dsk")
+        if img is None:
+            env.fail("C10:complete-image", ("C10", "C16"), sig("step1:nothing-written:exit=%s" % r1.exit))
+            return
+        try:
+            got = read_image("dsk", img)
+        except db.DiskFormatError as e:
+            import re
+            env.fail("C10:complete-image", ("C10", "C16"), sig("step1:malformed:%s" % re.sub(r"\d+", "N", str(e))))
+            return
+        want = [(n, ft, la, ea, d) for (n, e, ft, dt, la, ea, d) in files]
+        self._same_files(env, got, want, "C10:complete-image", sig, ("C10", "C16"))
+        # 2. that image as the target of a cassette conversion with --append: another kind, so it stays as it is and the user is told
+        fs1 = dict(fs0)
+        fs1["new.dsk"] = list(img)
+        r2 = run_cli(env, "file_util", {"host_filename": host, "to_cas": "new.dsk", "append": True}, dict(fs1))
+        if not self._gate(env, r2, sig):
+            return
+        env.ensure("C10:unchanged-other-kind", r2.fs.get("new.dsk") == img, ("C10",), sig("step2:disk-image-modified-by-cassette-append"))
+        env.ensure("C10:told-why", _told(r2.stdout), ("C10",), sig("step2:silent-refusal"))
+        # 3. the same image as the target of a disk conversion with --append: the old files stay, the new ones follow
+        one = FILESETS["one"]
+        fs2 = {"more." + src: make_image(src, one), "new.dsk": list(img)}
+        r3 = run_cli(env, "file_util", {"host_filename": "more." + src, "to_dsk": "new.dsk", "append": True}, dict(fs2))
+        if not self._gate(env, r3, sig):
+            return
+        try:
+            got3 = read_image("dsk", r3.fs.get("new.dsk") or [])
+        except db.DiskFormatError as e:
+            import re
+            env.fail("C10:complete-image", ("C10", "C16", "C09"), sig("step3:malformed:%s" % re.sub(r"\d+", "N", str(e))))
+            return
+        self._same_files(env, got3, want + [(n, ft, la, ea, d) for (n, e, ft, dt, la, ea, d) in one], "C10:complete-image", sig, ("C10", "C16", "C09"))
 
     def k_missing(self, env, cell, native):
         r = run_cli(env, "file_util", {"host_filename": "nothere.cas", "to_dsk": "out.dsk"}, {})
